@@ -70,11 +70,13 @@ Definition set_leb (a b : val) : bool :=
   | _, _ => Nat.leb (set_rank a) (set_rank b)
   end.
 
-Fixpoint set_insert (x : val) (l : list val) : list val :=
+Fixpoint sorted_insert (x : val) (l : list val) : list val :=
   match l with
   | [] => [x]
-  | y :: l' => if py_eq x y then l else if set_leb x y then x :: l else y :: set_insert x l'
+  | y :: l' => if set_leb x y then x :: l else y :: sorted_insert x l'
   end.
+(* set.add: an element == to one already there (1 / True / 1.0) is dropped, the one there stays *)
+Definition set_insert (x : val) (l : list val) : list val := if existsb (py_eq x) l then l else sorted_insert x l.
 
 Definition hashable (v : val) : bool :=
   match v with VList _ | VDict _ | VSet _ => false | _ => true end.
